@@ -45,6 +45,7 @@ func checkC14(c *Ctx, r *Report) {
 		c14Txn(c, r, eng, en, idem)
 	}
 	c14Dup(c, r)
+	c14ExtOrder(c, r)
 }
 
 type txnShape struct {
@@ -354,4 +355,68 @@ func c14Dup(c *Ctx, r *Report) {
 	}
 	r.check("C14.W3", "(*typeList).dup: the copy has its own list", dup.Pos(), freshList && copied && shares != "list", "the duplicate shares the list's backing array with the original (or does not copy the elements): sorting/appending during a failed load changes the original table")
 	r.check("C14.W3", "(*typeList).dup: the copy has its own map", dup.Pos(), freshDict && mapCopied && shares != "dict", "the duplicate shares the map with the original: a failed load leaves its types registered")
+}
+
+// C14.EXTORDER: the merge of an extension into its target (Type.Extend) modifies an object that the saved
+// tables share with the working copy (the C14.W2 findings). What keeps "undefined reference inside an
+// extension" from leaving a trace is that the extension's own references are resolved - and the load
+// aborted on failure - BEFORE that extension is merged. The rule: every Extend(x.Adds) call in the
+// extension pass is dominated by a reference-resolution call on the same x.Adds whose error has been
+// tested (the merge is control dependent on that error being nil).
+func c14ExtOrder(c *Ctx, r *Report) {
+	r.rule("C14.EXTORDER", "in the extension pass each Extend(x.Adds) is dominated by replaceTypeRefs(x.Adds) of the same extension with its error tested: references are resolved before anything shared is modified")
+	n := 0
+	for _, fn := range c.allFns {
+		if !c.inPkg(fn) {
+			continue
+		}
+		for _, ci := range callsIn(fn) {
+			cm := ci.Common()
+			if !cm.IsInvoke() || cm.Method.Name() != "Extend" || len(cm.Args) != 1 {
+				continue
+			}
+			_, o, f, ok := loadOfField(stripIface(cm.Args[0]))
+			if !ok || o != "Extend" || f != "Adds" {
+				continue
+			}
+			n++
+			r.fnSeen(fnName(fn))
+			resolved := false
+			for _, cj := range callsIn(fn) {
+				cal := cj.Common().StaticCallee()
+				if cal == nil || !c.resolvesRefs(cal) {
+					continue
+				}
+				same := false
+				for _, a := range cj.Common().Args {
+					if sameVal(stripIface(a), stripIface(cm.Args[0])) {
+						same = true
+					}
+				}
+				if !same || !instrDominates(cj, ci) {
+					continue
+				}
+				// the merge happens only when that call reported no error
+				if cv, ok := cj.(ssa.Value); ok {
+					if hasGuard(ci.Block(), func(g guard) bool {
+						v, eq, isN := nilCmp(g.cond)
+						return isN && eq == g.val && sameVal(v, cv)
+					}) {
+						resolved = true
+					}
+				}
+			}
+			r.check("C14.EXTORDER", fmt.Sprintf("%s: the references of an extension are resolved before it is merged", fnName(fn)), ci.Pos(), resolved,
+				"the extension is merged into its (shared, pre-existing) target before its references have been resolved: an undefined reference found afterwards aborts the load with the target already modified, which the restore of the tables does not undo")
+		}
+	}
+	r.floor("C14.EXTORDER", "merges of extensions", n, 1)
+}
+
+// resolvesRefs: the function (or a function it calls directly) replaces *Ref placeholders and can fail.
+func (c *Ctx) resolvesRefs(fn *ssa.Function) bool {
+	if !c.inPkg(fn) || fn.Signature.Results().Len() != 1 || !isErrorType(fn.Signature.Results().At(0).Type()) {
+		return false
+	}
+	return strings.Contains(fn.Name(), "replaceTypeRefs") || strings.Contains(fn.Name(), "ReplaceRefs")
 }
